@@ -434,13 +434,26 @@ def check_seq(prop, tier):
                 hs2.append(transformed(scen.seq_scenario(snap_checks.with_restores(calls, rng, i % 4 == 0)), i, scale=False))
                 continue
             hs2.append(transformed(scen.seq_scenario(calls), i))
+        # matches whose taker id is the id of an order that may be resting here
+        for i in range(20 if tier == "quick" else 400):
+            hs2.append(scen.seq_scenario(scen.seq_history(rng, rng.range(15, 40), nids=rng.choice([3, 4]), zero_ok=(i % 2 == 0), self_taker=True)))
         h2 = run_harness("level", hs2, work, "tv", timeout=3000)
         s2 = tv(h2["trace"], "MCTraceSeq", "TraceSeq", work, timeout=6000)
+        # levels at other prices (the price is a constant of the specification: one validation run per price)
+        price_drift = 0
+        for pr in (0, 100003):
+            hp = [scen.seq_scenario(scen.seq_history(rng, rng.range(15, 40), nids=rng.choice([3, 4, 6]), monotone_ts=(i % 2 == 0), zero_ok=(i % 3 != 0),
+                                                      vary_px=(i % 2 == 1), price=pr), price=pr) for i in range(24 if tier == "quick" else 500)]
+            hh = run_harness("level", hp, work, "tvp%d" % pr, timeout=3000)
+            sp = tv(hh["trace"], "MCTraceSeq", "TraceSeq", work, timeout=6000, subst={"Price": str(pr)})
+            res.add(traces_validated_against_impl=sp["execs"], calls_validated=sp["calls"], calls_conforming=sp["conform"], matches=sp["matches"], trades=sp["trades"])
+            classify_tv(res, sp, SEQ_MON[prop], KF_OF.get(prop, set()), lambda i, hp=hp: hp[i], "recorded history at level price %d" % pr, spec="seq")
+            price_drift += len(sp["drifts"])
         res.add(traces_validated_against_impl=s2["execs"], calls_validated=s2["calls"], calls_conforming=s2["conform"],
                 tv_drifts=len(s2["drifts"]), matches=s2["matches"], trades=s2["trades"], scaled_histories=nsc)
         classify_tv(res, s2, SEQ_MON[prop], KF_OF.get(prop, set()), lambda i: hs2[i], "recorded history", spec="seq")
         res.sample({"random_history": hs2[0]["threads"][0][:12]})
-        drift = len(s["drifts"]) + len(s2["drifts"]) + mism
+        drift = len(s["drifts"]) + len(s2["drifts"]) + mism + price_drift
         if drift and not res.violations:
             # ESCALATION: some call is not predicted by the model although the property's predicate holds.
             # Continue the drifting histories from the point of divergence with many random continuations
